@@ -66,7 +66,7 @@ def readAllC (vars : List Linked) (data : List UInt8) (caches : List PvCache) : 
     match fuel with
     | 0 => some acc.reverse
     | fuel + 1 =>
-      match getterStart vars caches i with
+      match getterStart bindNew vars caches i with
       | .ok (l, s, caches') => go (i + 1) fuel caches' (pyReadAt l.var.size data s :: acc)
       | .error _ => none
   go 0 vars.length caches []
